@@ -280,6 +280,8 @@ CONFIGS = {
     "async": dict(enable_async=True),
     "ext": dict(extensions=["jinja2.ext.i18n", "jinja2.ext.do", "jinja2.ext.loopcontrols", "jinja2.ext.debug"]),
     "sandbox": {"_class": "sandbox"},
+    "ext_async_trim": dict(extensions=["jinja2.ext.i18n", "jinja2.ext.loopcontrols"], enable_async=True, trim_blocks=True,
+                           line_statement_prefix="%"),
 }
 FRAGS = {
     "default": ["{{", "}}", "{%", "%}", "{#", "#}", "-", "\n", "a", " ", "\"", "(", "if ", "1"],
@@ -290,6 +292,7 @@ FRAGS = {
     "async": ["{{", "}}", "{%", "%}", "for ", "a", " in ", "end", "\n", "(", ")"],
     "ext": ["{%", "%}", "{{", "}}", "trans", "endtrans", "pluralize", "do ", "break", "a", " ", "%", "debug"],
     "sandbox": ["{{", "}}", "a", ".", "__class__", "(", ")", "[", "]", "\"", "|", "attr"],
+    "ext_async_trim": ["{%", "%}", "trans", "endtrans", "pluralize", "a", " "],
 }
 
 _ENVS = {}
@@ -478,6 +481,42 @@ def oracle(ctx):
             work.append(("sandbox", "{{ f(" + body + ") }}"))
             n_sub += 2
     ctx.count("oracle_subscript_and_call_contents", n_sub)
+    # (vi) i18n trans blocks: declared / undeclared variables, pluralize with and without an explicit
+    # count variable (declared, only used in the body, or unknown), trimmed, nested tags, missing end tags
+    def trans_block(r):
+        names = ["n", "num", "a", "b", "count"]
+        decl = []
+        for _ in range(r.randint(0, 2)):
+            nm_ = r.choice(names)
+            decl.append(nm_ if r.random() < 0.4 else f"{nm_}={r.choice(['x', '1', 'y|length', nm_])}")
+        head = "{% trans " + r.choice(["", "trimmed ", "notrimmed ", "'ctx' "]) + ", ".join(decl) + " %}"
+        def body():
+            return "".join(r.choice(["t ", "{{ " + r.choice(names) + " }}", "% ", "%(n)s", "\n", "{{ a.b }}", "{% if a %}",
+                                     "{{ 1 }}", ""]) for _ in range(r.randint(0, 3)))
+        out = head + body()
+        if r.random() < 0.7:
+            out += "{% pluralize" + r.choice(["", " " + r.choice(names), " " + r.choice(names), " 1", " a.b"]) + " %}" + body()
+        if r.random() < 0.15:
+            out += "{% pluralize %}" + body()
+        out += r.choice(["{% endtrans %}", "{% endtrans %}", "{% endtrans %}", "", "{% endtrans x %}", "{% endblock %}"])
+        return out
+    n_i18n = ctx.size(4000, 60000)
+    for _ in range(n_i18n):
+        work.append((ctx.rng.choice(["ext", "ext", "ext_async_trim"]), trans_block(ctx.rng)))
+    ctx.count("oracle_i18n_trans_blocks", n_i18n)
+    # (vii) a syntax error after a prefix that uses whitespace control across line breaks: the reported
+    # line must still lie inside the source
+    PRE = ["a\n\n\n{#- c #}", "{% raw %}\n\n{%- endraw %}", "x\n \n{%- if a -%}\n\n", "{{ a -}}\n\n\n", "\r\n\r{#- c -#}\n\n",
+           "{% set x = [1,\n2] -%}\n\n", "\n\n{%+ if a %}", "{% raw -%}\n\n\n{% endraw -%}\n\n", "a\n{#\n\n#}\n", ""]
+    BAD = ["{{ ! }}", "{% endfor %}", "{{ 1 +", "{% if %}", "{{ 'a }}", "{% for %}", "{{ a b }}", "{% unknown_tag %}", "{{ }}", "{#"]
+    n_pre = 0
+    for cfgname in ("default", "trim", "async"):
+        for a in PRE:
+            for b in PRE:
+                for c in BAD:
+                    work.append((cfgname, a + b + c))
+                    n_pre += 1
+    ctx.count("oracle_error_after_whitespace_control", n_pre)
     work += PROBES
     ctx.count("oracle_exhaustive", n_exh)
     ctx.count("oracle_generated_and_mutated", len(work) - n_exh - len(PROBES) - n_uni)  # (v) counted separately below
